@@ -85,6 +85,9 @@ func runSmall(c *core.Ctx) []core.Obligation {
 	smallParseRemainderSkipsSpaces(c, b)
 	smallRepeatedNilElement(c, b)
 	smallFlagTestsMask(c, b)
+	smallIntegerKeysByKind(c, b)
+	smallDepthNotCountedTwice(c, b)
+	smallWave17(c, b)
 	smallStringOptionNull(c, b)
 	smallStringOptionMarshaler(c, b)
 	return b.out
@@ -3738,5 +3741,409 @@ func smallFlagTestsMask(c *core.Ctx, b *ob) {
 		b.addP(props, core.Undecided, key, "-", fmt.Sprintf("only %d flag tests of the form (flags & F) ⋈ 0 found in json", masks))
 	default:
 		b.addP(props, core.Discharged, key, "-", fmt.Sprintf("%d flag tests in json, each masks the flag it asks about", masks))
+	}
+}
+
+// S60 — encoding/json writes a map key of integer kind as the decimal text of the integer unless
+// the key type is a TextMarshaler (and parses it back unless it is a TextUnmarshaler): MarshalJSON
+// and UnmarshalJSON of a key type play no role, and time.Duration keys are plain integers.
+// constructMapCodec obtains the integer key codec from constructStringCodec; handing it the key
+// *type* runs the full marshaler selection of constructCodec on it (map[K]int{1: 2} with a
+// MarshalJSON on K becomes {"\"x\"":2}). The type handed over must be chosen by kind.
+func smallIntegerKeysByKind(c *core.Ctx, b *ob) {
+	props := []string{"C01", "C02"}
+	key := "map-keys:integer-kind-by-kind"
+	fn := c.Lookup("json.constructMapCodec")
+	if fn == nil {
+		b.addP(props, core.Undecided, key, "-", "json.constructMapCodec not found")
+		return
+	}
+	n, bad := 0, ""
+	for _, ci := range callsIn(fn) {
+		f := staticCallee(ci.Common())
+		if f == nil || f.Name() != "constructStringCodec" || len(ci.Common().Args) == 0 {
+			continue
+		}
+		n++
+		for _, o := range origins(ci.Common().Args[0]) {
+			if call, ok := o.(*ssa.Call); ok && call.Common().IsInvoke() && call.Common().Method.Name() == "Key" {
+				bad = c.InstrPos(ci)
+			}
+		}
+	}
+	switch {
+	case n == 0:
+		b.addP(props, core.Undecided, key, c.FuncPos(fn), "constructMapCodec does not build integer key codecs with constructStringCodec")
+	case bad != "":
+		b.addP(props, core.Violation, key, bad, "constructMapCodec builds the codec of integer-kind keys from the key type itself, so constructCodec applies its marshaler selection to it: a key type with MarshalJSON is written through it and quoted again (map[K]int{1: 2} gives {\"\\\"x\\\"\":2}, encoding/json {\"1\":2}), UnmarshalJSON is called on keys, and time.Duration keys come out as \"\\\"5ns\\\"\" instead of \"5\"")
+	default:
+		b.addP(props, core.Discharged, key, c.FuncPos(fn), fmt.Sprintf("%d integer key codec(s), each built for the predeclared type of the key's kind", n))
+	}
+}
+
+// S61 — the container decoders count a nesting level on entry (d.depth++) and, when an element
+// fails with a type error, re-validate their whole input with d.parseValue(input) to find its
+// end. That input starts with the very container already counted: validated with the incremented
+// decoder it is counted a second time, and a valid document nested exactly maxNestingDepth deep
+// whose innermost value has the wrong type is rejected with "exceeded max depth" (a SyntaxError)
+// where encoding/json reports the UnmarshalTypeError.
+func smallDepthNotCountedTwice(c *core.Ctx, b *ob) {
+	props := []string{"C02", "C05"}
+	n := 0
+	for _, fn := range c.RepoFunctions() {
+		name := shortName(fn)
+		if fn.Blocks == nil || !strings.HasPrefix(name, "json.(decoder).decode") || len(fn.Params) < 2 {
+			continue
+		}
+		// the increment: a store into the depth field of the receiver copy
+		var incs []*ssa.Store
+		for _, blk := range fn.Blocks {
+			for _, in := range blk.Instrs {
+				if st, ok := in.(*ssa.Store); ok {
+					if fa, isFA := st.Addr.(*ssa.FieldAddr); isFA && fieldAddrID(fa) == "json.decoder.depth" {
+						incs = append(incs, st)
+					}
+				}
+			}
+		}
+		if len(incs) == 0 {
+			continue
+		}
+		entry := fn.Params[1]
+		key := "depth:revalidation-not-counted-twice:" + name
+		bad := ""
+		calls, helped := 0, 0
+		for _, ci := range callsIn(fn) {
+			f := staticCallee(ci.Common())
+			if f == nil || len(ci.Common().Args) < 2 || f.Blocks == nil {
+				continue
+			}
+			if !(f.Name() == "parseValue" || f.Name() == "parseObject" || f.Name() == "parseArray") {
+				// a helper that forwards its input to parseValue: fine when it takes the level
+				// back first (a store of depth-1 into its own decoder copy)
+				forwards, decrements := false, false
+				for _, c2 := range callsIn(f) {
+					if g := staticCallee(c2.Common()); g != nil && g.Name() == "parseValue" && len(f.Params) >= 2 && len(c2.Common().Args) >= 2 && c2.Common().Args[1] == ssa.Value(f.Params[1]) {
+						forwards = true
+					}
+				}
+				for _, blk := range f.Blocks {
+					for _, in := range blk.Instrs {
+						if st, ok := in.(*ssa.Store); ok {
+							if fa, isFA := st.Addr.(*ssa.FieldAddr); isFA && fieldAddrID(fa) == "json.decoder.depth" {
+								if bo, isB := st.Val.(*ssa.BinOp); isB && bo.Op == token.SUB {
+									decrements = true
+								}
+							}
+						}
+					}
+				}
+				if !forwards || decrements {
+					if forwards {
+						helped++
+					}
+					continue
+				}
+			}
+			arg := ci.Common().Args[1]
+			whole := false
+			for _, o := range origins(arg) {
+				if o == ssa.Value(entry) {
+					whole = true
+				}
+			}
+			if !whole {
+				continue
+			}
+			calls++
+			for _, inc := range incs {
+				if instrDominates(inc, ci.(ssa.Instruction)) {
+					bad = c.InstrPos(ci)
+				}
+			}
+		}
+		n++
+		if bad != "" {
+			b.addP(props, core.Violation, key, bad, name+" re-validates its whole input — which begins with the container it already counted in d.depth — with the incremented decoder: the level is counted twice, and a valid document nested exactly 10000 deep whose innermost value has the wrong type is rejected with the syntax error \"exceeded max depth\" where encoding/json returns the UnmarshalTypeError")
+		} else {
+			b.addP(props, core.Discharged, key, c.FuncPos(fn), fmt.Sprintf("no re-validation of the whole input with the incremented decoder (%d through a helper that takes the level back first)", helped))
+		}
+	}
+	if n == 0 {
+		b.addP(props, core.Undecided, "depth:revalidation-not-counted-twice", "-", "no container decoder that counts depth found")
+	}
+}
+
+// smallWave17 groups single-site clauses added after the seventeenth round of seeded changes.
+func smallWave17(c *core.Ctx, b *ob) {
+	// S62 — parseValue leaves containers to parseObject/parseArray, which count the nesting level:
+	// a shortcut that returns Object or Array itself ({} and [] "are common") skips the count, and
+	// a document nested one level beyond the limit is accepted when its innermost container is
+	// empty.
+	{
+		props := []string{"C05", "C06", "C02"}
+		key := "parse-value:containers-counted"
+		fn := c.Lookup("json.(decoder).parseValue")
+		obj, arr := int64(jsonConst(c, "Object")), int64(jsonConst(c, "Array"))
+		switch {
+		case fn == nil || obj == 0 || arr == 0:
+			b.addP(props, core.Undecided, key, "-", "json.(decoder).parseValue or the Object/Array kinds not found")
+		default:
+			bad := ""
+			for _, r := range returnsOf(fn) {
+				if len(r.Results) != 4 {
+					continue
+				}
+				for _, o := range origins(r.Results[2]) {
+					if k, ok := constInt(o); ok && (k == obj || k == arr) {
+						bad = c.InstrPos(r)
+					}
+				}
+			}
+			if bad != "" {
+				b.addP(props, core.Violation, key, bad, "parseValue returns the kind Object or Array itself, without going through parseObject/parseArray, which count the nesting depth: the container it recognises on its own ({} or []) is not counted, and a document nested 10001 deep is accepted where encoding/json.Valid rejects it")
+			} else {
+				b.addP(props, core.Discharged, key, c.FuncPos(fn), "the kind of a container always comes from parseObject/parseArray")
+			}
+		}
+	}
+	// S63 — thrift's readers fill fixed-size windows with io.ReadFull: a single Read may return
+	// fewer bytes than asked for (a bufio boundary, a socket), and code that calls Read itself has
+	// to account for the bytes already delivered.
+	{
+		props := []string{"C04", "C08"}
+		key := "thrift:no-bare-read"
+		bad, n := "", 0
+		for _, fn := range c.RepoFunctions() {
+			if fn.Blocks == nil || fn.Pkg == nil || fn.Pkg.Pkg.Name() != "thrift" {
+				continue
+			}
+			for _, ci := range callsIn(fn) {
+				cc := ci.Common()
+				name := calleeName(cc)
+				if name == "io.ReadFull" || name == "io.ReadAtLeast" {
+					n++
+				}
+				if cc.IsInvoke() && cc.Method.Name() == "Read" && strings.HasSuffix(cc.Value.Type().String(), "io.Reader") {
+					bad = c.InstrPos(ci)
+				}
+			}
+		}
+		switch {
+		case bad != "":
+			b.addP(props, core.Violation, key, bad, "a thrift reader calls Read on its io.Reader directly: Read may deliver fewer bytes than requested (the boundary of a bufio.Reader, a socket), and unless the remaining bytes are read into the rest of the window the bytes already delivered are overwritten and the stream is consumed out of step")
+		case n == 0:
+			b.addP(props, core.Undecided, key, "-", "no io.ReadFull call found in thrift")
+		default:
+			b.addP(props, core.Discharged, key, "-", fmt.Sprintf("%d io.ReadFull/ReadAtLeast call(s), no bare Read", n))
+		}
+	}
+	// S64 — the bytes ReadBytes returns belong to the caller: decoded strings and []byte are built
+	// on them and must survive later reads. They come from a make in ReadBytes, not from the
+	// source's own buffer (bytes.Buffer.Next) nor from the reader's scratch array.
+	for _, name := range []string{"thrift.(*binaryReader).ReadBytes", "thrift.(*compactReader).ReadBytes"} {
+		props := []string{"C04"}
+		key := "thrift:readbytes-fresh:" + name
+		fn := c.Lookup(name)
+		if fn == nil {
+			b.addP(props, core.Undecided, key, "-", name+" not found")
+			continue
+		}
+		bad, n := "", 0
+		for _, r := range returnsOf(fn) {
+			if len(r.Results) != 2 {
+				continue
+			}
+			for _, o := range origins(r.Results[0]) {
+				if isNilConst(o) {
+					continue
+				}
+				n++
+				root := o
+				for {
+					sl, ok := root.(*ssa.Slice)
+					if !ok {
+						break
+					}
+					root = sl.X
+				}
+				switch x := root.(type) {
+				case *ssa.MakeSlice:
+				case *ssa.Call:
+					if f := staticCallee(x.Common()); f != nil && f.Name() == "ReadBytes" {
+						continue // delegation to the other protocol's reader
+					}
+					bad = c.InstrPos(r)
+				case *ssa.Extract:
+					if call, ok := x.Tuple.(*ssa.Call); ok {
+						if f := staticCallee(call.Common()); f != nil && f.Name() == "ReadBytes" {
+							continue
+						}
+					}
+					bad = c.InstrPos(r)
+				default:
+					bad = c.InstrPos(r)
+				}
+			}
+		}
+		switch {
+		case bad != "":
+			b.addP(props, core.Violation, key, bad, name+" returns bytes that it did not allocate (the internal buffer of the source, handed out by bytes.Buffer.Next, or the reader's scratch): every decoded string and []byte then aliases memory that the next message overwrites — values are right when Decode returns and change afterwards")
+		case n == 0:
+			b.addP(props, core.Undecided, key, c.FuncPos(fn), "ReadBytes returns no slice")
+		default:
+			b.addP(props, core.Discharged, key, c.FuncPos(fn), "the bytes returned are allocated by ReadBytes")
+		}
+	}
+	// S65 — the cycle detector of encodeSlice identifies a slice by its data pointer *and* length,
+	// like encoding/json: s[:0] and s share the pointer (a tree kept in an arena, with empty
+	// children slices) and are different values.
+	{
+		props := []string{"C01", "C06"}
+		key := "cycle-key:slice-includes-length"
+		fn := c.Lookup("json.(encoder).encodeSlice")
+		if fn == nil {
+			b.addP(props, core.Undecided, key, "-", "json.(encoder).encodeSlice not found")
+		} else {
+			found, bad := false, ""
+			for _, blk := range fn.Blocks {
+				for _, in := range blk.Instrs {
+					st, ok := in.(*ssa.Store)
+					if !ok {
+						continue
+					}
+					fa, ok := st.Addr.(*ssa.FieldAddr)
+					if !ok || fieldAddrID(fa) != "json.ptrKey.len" {
+						continue
+					}
+					found = true
+					if id, ok := fieldOfLoad(stripConv(st.Val)); !ok || !strings.HasSuffix(id, "slice.len") {
+						bad = c.InstrPos(st)
+					}
+				}
+			}
+			switch {
+			case !found:
+				b.addP(props, core.Violation, key, c.FuncPos(fn), "encodeSlice builds its cycle-detection key without a length: a slice and a shorter slice of the same array are taken for the same value, and an acyclic value deeper than 1000 levels that contains both is rejected as a cycle")
+			case bad != "":
+				b.addP(props, core.Violation, key, bad, "encodeSlice's cycle-detection key does not carry the length of the slice: a slice and a shorter slice of the same array (an arena tree whose leaves are arena[:0]) are taken for the same value, and an acyclic value deeper than 1000 levels is rejected with \"encountered a cycle\" where encoding/json marshals it")
+			default:
+				b.addP(props, core.Discharged, key, c.FuncPos(fn), "the key is {data pointer, length}")
+			}
+		}
+	}
+	// S66 — the output of a MarshalJSON may end in white space (json.NewEncoder(&buf).Encode
+	// appends a newline): encoding/json compacts it away; the test for trailing data after the
+	// value is made on the remainder with its white space skipped.
+	{
+		props := []string{"C01", "C05"}
+		key := "marshaler-output:trailing-space-skipped"
+		fn := c.Lookup("json.(encoder).encodeJSONMarshaler")
+		if fn == nil {
+			b.addP(props, core.Undecided, key, "-", "json.(encoder).encodeJSONMarshaler not found")
+		} else {
+			n, bad := 0, ""
+			for _, blk := range fn.Blocks {
+				for _, in := range blk.Instrs {
+					bo, ok := in.(*ssa.BinOp)
+					if !ok || (bo.Op != token.NEQ && bo.Op != token.EQL && bo.Op != token.GTR) {
+						continue
+					}
+					of, isLen := lenArg(bo.X)
+					if k, isK := constInt(bo.Y); !isLen || !isK || k != 0 {
+						continue
+					}
+					// the remainder of parseValue, possibly through skipSpaces
+					isRem := func(v ssa.Value) bool {
+						ex, ok := v.(*ssa.Extract)
+						if !ok || ex.Index != 1 {
+							return false
+						}
+						call, ok := ex.Tuple.(*ssa.Call)
+						return ok && strings.HasSuffix(calleeName(call.Common()), "parseValue")
+					}
+					for _, o := range origins(of) {
+						if isRem(o) {
+							n++
+							bad = c.InstrPos(bo)
+						}
+						if call, ok := o.(*ssa.Call); ok && strings.HasPrefix(calleeName(call.Common()), "github.com/segmentio/encoding/json.skipSpaces") && len(call.Call.Args) == 1 {
+							for _, o2 := range origins(call.Call.Args[0]) {
+								if isRem(o2) {
+									n++
+								}
+							}
+						}
+					}
+				}
+			}
+			switch {
+			case bad != "":
+				b.addP(props, core.Violation, key, bad, "encodeJSONMarshaler tests the remainder after the marshaler's value for trailing data without skipping white space: a MarshalJSON whose output ends in a newline (written with an Encoder) fails with a MarshalerError where encoding/json compacts it and succeeds")
+			case n == 0:
+				b.addP(props, core.Undecided, key, c.FuncPos(fn), "no test of the remainder after the marshaler's value found")
+			default:
+				b.addP(props, core.Discharged, key, c.FuncPos(fn), "the trailing-data test is made after skipSpaces")
+			}
+		}
+	}
+	// S67 — decodeSlice truncates: like encoding/json it leaves the elements beyond the new
+	// length alone (a later, longer decode merges into them). Clearing the spare capacity on the
+	// closing bracket changes what the next decode into the same slice produces.
+	{
+		props := []string{"C02"}
+		key := "decode-slice:spare-capacity-untouched"
+		fn := c.Lookup("json.(decoder).decodeSlice")
+		if fn == nil {
+			b.addP(props, core.Undecided, key, "-", "json.(decoder).decodeSlice not found")
+		} else {
+			bad := ""
+			for _, ci := range callsIn(fn) {
+				n := calleeName(ci.Common())
+				if bi, ok := ci.Common().Value.(*ssa.Builtin); ok && bi.Name() == "clear" {
+					bad = c.InstrPos(ci)
+				}
+				if strings.HasSuffix(n, "reflect.Value).Clear") || strings.HasSuffix(n, "reflect.Value).SetZero") || strings.HasSuffix(n, "typedmemclr") {
+					bad = c.InstrPos(ci)
+				}
+			}
+			if bad != "" {
+				b.addP(props, core.Violation, key, bad, "decodeSlice clears elements of the destination that it did not decode: encoding/json only truncates the slice, so a later decode of a longer array into the same slice merges into the stale elements (maps keep their entries, absent struct fields their values); after clearing, the results differ")
+			} else {
+				b.addP(props, core.Discharged, key, c.FuncPos(fn), "no clearing of the destination's memory")
+			}
+		}
+	}
+	// S68 — appendDuration formats from the end of a scratch array: the longest text is that of
+	// math.MinInt64, -2562047h47m16.854775808s, 25 bytes; a shorter array makes the sign land at
+	// index -1.
+	{
+		props := []string{"C06", "C01"}
+		key := "duration:scratch-holds-the-longest-text"
+		fn := c.Lookup("json.appendDuration")
+		if fn == nil {
+			b.addP(props, core.Undecided, key, "-", "json.appendDuration not found")
+		} else {
+			size := int64(-1)
+			for _, blk := range fn.Blocks {
+				for _, in := range blk.Instrs {
+					if al, ok := in.(*ssa.Alloc); ok {
+						if arr, ok := al.Type().Underlying().(*types.Pointer).Elem().Underlying().(*types.Array); ok {
+							if bt, ok := arr.Elem().Underlying().(*types.Basic); ok && bt.Kind() == types.Uint8 && arr.Len() > size {
+								size = arr.Len() // the scratch is the largest byte array (append's varargs make small ones)
+							}
+						}
+					}
+				}
+			}
+			switch {
+			case size < 0:
+				b.addP(props, core.Undecided, key, c.FuncPos(fn), "no byte array found in appendDuration")
+			case size < 25:
+				b.addP(props, core.Violation, key, c.FuncPos(fn), fmt.Sprintf("appendDuration formats into a %d-byte array from its end: the text of math.MinInt64 (-2562047h47m16.854775808s) takes 25 bytes, so the sign is written at index -1 and Marshal panics for negative durations of at least 1000000h with a non-zero nanosecond digit", size))
+			default:
+				b.addP(props, core.Discharged, key, c.FuncPos(fn), fmt.Sprintf("%d-byte scratch array, the longest duration text is 25 bytes", size))
+			}
+		}
 	}
 }
